@@ -191,10 +191,20 @@ func (f *File) register(path string) string {
 		alias = true
 	}
 
-	// If the name is invalid or has been registered already, make it unique by appending a number
+	// prefixed returns the name that would be registered for a candidate: the prefix is only added
+	// if the name is an alias (and never to the dot of a dot-import)
+	prefixed := func(candidate string) string {
+		if f.PackagePrefix != "" && (alias || candidate != name) && candidate != "." {
+			return f.PackagePrefix + "_" + candidate
+		}
+		return candidate
+	}
+
+	// If the name is invalid or has been registered already, make it unique by appending a number.
+	// The name that is eventually registered (including the prefix) must be unique too.
 	unique := name
 	i := 0
-	for !f.isValidAlias(unique) {
+	for !f.isValidAlias(unique) || !f.isValidAlias(prefixed(unique)) {
 		i++
 		unique = fmt.Sprintf("%s%d", name, i)
 	}
@@ -204,10 +214,8 @@ func (f *File) register(path string) string {
 		alias = true
 	}
 
-	// Only add a prefix if the name is an alias (and never to the dot of a dot-import)
-	if f.PackagePrefix != "" && alias && unique != "." {
-		unique = f.PackagePrefix + "_" + unique
-	}
+	// Only add a prefix if the name is an alias
+	unique = prefixed(unique)
 
 	// Register the eventual name
 	f.imports[path] = importdef{name: unique, alias: alias}
